@@ -47,11 +47,120 @@ func runC01(c *Ctx) {
 	}
 	c.r011(pk)
 	c.r012(pk)
-	c.r013(pk)
+	c.r013(pk, "R01.3", nil)
 	c.r014(pk)
 	c.r015(pk)
 	c.r016(pk)
 	c.r017(pk)
+	c.r018(pk)
+	c.r019(pk, "R01.9")
+}
+
+// R01.9 / R09.3: BigInt literals keep their suffix and never go through minify.Number.
+func (c *Ctx) r019(pk *packages.Package, rule string) {
+	c.R.Rule(rule, "in every JS number printer that splits off the BigInt suffix (a call of removeUnderscoresAndSuffix binding a boolean): under the stipulation that the boolean is true, minify.Number — which may switch to exponent notation or drop digits, both invalid/meaning-changing for a BigInt — is unreachable, and every return yields append(…, 'n'), i.e. the literal stays a BigInt")
+	info := pk.TypesInfo
+	n := 0
+	for _, fd := range load.FuncDecls(pk) {
+		g := c.graph(pk, fd)
+		var split *flow.Node
+		flag := ""
+		for _, y := range g.Nodes {
+			if y.Kind != flow.KStmt || y.Ast() == nil {
+				continue
+			}
+			if as, ok := y.Stmt.(*ast.AssignStmt); ok && len(as.Lhs) == 2 && len(as.Rhs) == 1 && isCall(info, as.Rhs[0], load.Mod+"/js.removeUnderscoresAndSuffix") != nil {
+				split, flag = y, str(as.Lhs[1])
+			}
+		}
+		if split == nil {
+			continue
+		}
+		n++
+		fname := load.FuncName(fd)
+		c.R.Func("js." + fname)
+		assume := map[string]bool{flag: true}
+		var bad []string
+		for _, y := range g.Nodes {
+			a := y.Ast()
+			if a == nil || y.Kind == flow.KRange || y.Kind == flow.KSelect {
+				continue
+			}
+			if len(findCalls(info, a, false, load.Mod+".Number")) > 0 {
+				if p := g.Path(flow.Search{From: []*flow.Node{split}, Goal: func(z *flow.Node) bool { return z == y }, Assume: assume}); p != nil {
+					bad = append(bad, "minify.Number at "+c.pos(a)+" is reachable for a BigInt literal (its digits may be rewritten to exponent form, `0x3e8n` → `1e3n`, which is not a BigInt literal)")
+				}
+			}
+			if r := retStmt(y); r != nil && len(r.Results) == 1 {
+				okRet := false
+				if call, isC := ast.Unparen(r.Results[0]).(*ast.CallExpr); isC && str(call.Fun) == "append" && len(call.Args) == 2 && str(call.Args[1]) == "'n'" {
+					okRet = true
+				}
+				if !okRet {
+					if p := g.Path(flow.Search{From: []*flow.Node{split}, Goal: func(z *flow.Node) bool { return z == y }, Assume: assume}); p != nil {
+						bad = append(bad, "the return at "+c.pos(r)+" yields "+str(r.Results[0])+" without the `n` suffix although the literal is a BigInt: the BigInt silently becomes a Number (type and, beyond 2^53, value change)")
+					}
+				}
+			}
+		}
+		c.R.Check(len(bad) == 0, rule, "js."+fname+"/BigInt suffix preserved", c.pos(split.Stmt), "BigInt literals bypass minify.Number and keep `n` on every return", strings.Join(bad, "; "))
+	}
+	c.R.Floor(rule, "number printers splitting the BigInt suffix", n, 4)
+}
+
+// R01.8: every AST slot is printed at (least at) the grammar level of that slot.
+func (c *Ctx) r018(pk *packages.Package) {
+	const rule = "R01.8"
+	c.R.Rule(rule, "every call m.minifyExpr(E, P) in package js whose argument E is a field of a parse/v2/js AST node (stmt.Value, item.Value, expr.Cond, a range variable over CommaExpr.List, …) and whose P is a constant js.OpPrec passes P ≥ the grammar level ECMA-262 has in that slot (frozen table ref.JSSlotMinPrec: Expression, AssignmentExpression, ShortCircuitExpression, LeftHandSideExpression, …). A lower level makes the printer drop parentheses the slot needs (`[(a,b)]` → `[a,b]`, `f((a,b))` → `f(a,b)`). Calls whose level is computed (operator tables, the caller's prec) are covered by R01.2")
+	info := pk.TypesInfo
+	op := c.opPrec()
+	n := 0
+	for _, fd := range load.FuncDecls(pk) {
+		fname := load.FuncName(fd)
+		// range variables over X.List of IExpr
+		rangeSlot := map[types.Object]string{}
+		ast.Inspect(fd.Body, func(x ast.Node) bool {
+			if rs, ok := x.(*ast.RangeStmt); ok && rs.Value != nil {
+				if id, ok := rs.Value.(*ast.Ident); ok {
+					if t, f := fieldOf(info, rs.X); t != "" && strings.HasPrefix(t, pjs+".") {
+						if sl, ok := info.TypeOf(rs.X).Underlying().(*types.Slice); ok && namedTypeName(sl.Elem()) == pjs+".IExpr" {
+							rangeSlot[info.Defs[id]] = strings.TrimPrefix(t, pjs+".") + "." + f
+						}
+					}
+				}
+			}
+			return true
+		})
+		for _, call := range findCalls(info, fd.Body, true, load.Mod+"/js.(jsMinifier).minifyExpr") {
+			if len(call.Args) != 2 {
+				continue
+			}
+			slot := ""
+			if t, f := fieldOf(info, call.Args[0]); t != "" && strings.HasPrefix(t, pjs+".") {
+				slot = strings.TrimPrefix(t, pjs+".") + "." + f
+			} else if id, ok := ast.Unparen(call.Args[0]).(*ast.Ident); ok {
+				slot = rangeSlot[info.Uses[id]]
+			}
+			if slot == "" {
+				continue
+			}
+			p, isConst := intConst(info, call.Args[1])
+			if !isConst {
+				continue // computed level: operator tables (R01.2) or the caller's context
+			}
+			n++
+			c.R.Func("js." + fname)
+			construct := fmt.Sprintf("js.%s/%s/minifyExpr(%s) level", fname, c.caseLabel(call), slot)
+			want, known := ref.JSSlotMinPrec[slot]
+			if !known {
+				c.R.Unres(rule, construct, c.pos(call), "AST slot "+slot+" is not in the frozen grammar table (ref.JSSlotMinPrec): a new node type needs its grammar level recorded")
+				continue
+			}
+			c.R.Check(p >= op[want], rule, construct, c.pos(call), fmt.Sprintf("printed at %s ≥ %s", str(call.Args[1]), want),
+				fmt.Sprintf("%s is printed at level %s, but the grammar has %s in that position: an operand of lower precedence (e.g. a comma or assignment expression) loses the parentheses it needs and the program changes meaning", slot, str(call.Args[1]), want))
+		}
+	}
+	c.R.Floor(rule, "constant-level printer call sites", n, 35)
 }
 
 // ---------------------------------------------------------------------------
@@ -460,7 +569,8 @@ type parserOp struct{ own, minLeft, right int64 }
 
 // parserBinaryTable extracts (own level, minimum left level, right level) per binary operator token from
 // the switch in parse/v2/js.(*Parser).parseExpressionSuffix: clauses of the form
-//   case T1, T2: if prec >= L { return left } ; if precLeft < M { fail } ; p.next() ; left = &BinaryExpr{tt, left, p.parseExpression(R)} ; precLeft = L'
+//
+//	case T1, T2: if prec >= L { return left } ; if precLeft < M { fail } ; p.next() ; left = &BinaryExpr{tt, left, p.parseExpression(R)} ; precLeft = L'
 func (c *Ctx) parserBinaryTable(rule string) map[string]parserOp {
 	dep := c.P.Dep(pjs)
 	if dep == nil {
@@ -552,12 +662,14 @@ func intConst(info *types.Info, e ast.Expr) (int64, bool) {
 // ---------------------------------------------------------------------------
 // R01.3 save / restore of printer context flags
 
-func (c *Ctx) r013(pk *packages.Package) {
-	const rule = "R01.3"
+func (c *Ctx) r013(pk *packages.Package, rule string, only map[string]bool) {
 	c.R.Rule(rule, "every save `p := X.F` of a printer context flag F ∈ {jsMinifier.inFor, jsMinifier.groupedStmt, renamer.rename} is followed, on every path from the first later assignment to X.F to a function exit (including break out of the switch case), by the restore `X.F = p`; and in minifyStmt every `m.inFor = true` is followed on all paths by `m.inFor = false` before the loop body is printed")
 	info := pk.TypesInfo
 	isFlag := func(e ast.Expr) string {
 		t, f := fieldOf(info, e)
+		if only != nil && !only[f] {
+			return ""
+		}
 		switch {
 		case t == jsMinT && (f == "inFor" || f == "groupedStmt"):
 			return f
@@ -633,7 +745,12 @@ func (c *Ctx) r013(pk *packages.Package) {
 			}
 		}
 	}
-	c.R.Floor(rule, "save sites", saves, 15)
+	if only == nil {
+		c.R.Floor(rule, "save sites", saves, 15)
+	} else {
+		c.R.Floor(rule, "save sites", saves, 3)
+		return
+	}
 
 	// inFor = true ... inFor = false in minifyStmt
 	if fd := c.fn(rule, pk, "jsMinifier.minifyStmt"); fd != nil {
@@ -1328,6 +1445,9 @@ func init() {
 	mutant(&Mutant{Name: "c01-cond-no-recursion", Property: "C01", File: "js/util.go",
 		Old: "return hasSideEffects(expr.Cond) || hasSideEffects(expr.X) || hasSideEffects(expr.Y)", New: "return hasSideEffects(expr.Cond) || hasSideEffects(expr.X)",
 		Rule: "R01.4", Construct: "case *js.CondExpr"})
+	mutant(&Mutant{Name: "c01-call-args-at-comma-level", Property: "C01", File: "js/js.go",
+		Old: "\t\tif item.Rest {\n\t\t\tm.write(ellipsisBytes)\n\t\t}\n\t\tm.minifyExpr(item.Value, js.OpAssign)", New: "\t\tif item.Rest {\n\t\t\tm.write(ellipsisBytes)\n\t\t}\n\t\tm.minifyExpr(item.Value, js.OpExpr)",
+		Rule: "R01.8", Construct: "minifyExpr(Arg.Value)"})
 	mutant(&Mutant{Name: "c01-math-without-decl", Property: "C01", File: "js/js.go",
 		Old: "ok && v.Decl == js.NoDecl && bytes.Equal(v.Data, MathBytes)", New: "ok && bytes.Equal(v.Data, MathBytes)",
 		Rule: "R01.5", Construct: "v is global Math"})
